@@ -794,13 +794,23 @@ class FX:
                         out[k] = va
                     elif is_attr:
                         out[k] = _path_ast(k)   # an attribute bound differently on two branches: its own path names it
-                    elif snap is not None and isinstance(snap.get(k), ast.Name) and snap[k].id == k:
+                    elif snap is not None and isinstance(snap.get(k), ast.Name) and snap[k].id == k and k not in self.localdefs:
                         out[k] = snap[k]        # normalisation of a symbolic parameter: stays symbolic
                     elif cond is not None and len(norm(va)) + len(norm(vb)) < 200:
                         out[k] = ast.IfExp(test=copy.deepcopy(cond), body=copy.deepcopy(va), orelse=copy.deepcopy(vb))
                     elif is_attr:
                         out[k] = _path_ast(k)
                     else:
+                        if cond is not None:
+                            # too long to carry along: the name stays, its two-way definition is remembered for expand()
+                            prev = self.localdefs.get(k)
+
+                            def unself(v):
+                                class U(ast.NodeTransformer):
+                                    def visit_Name(self, n):
+                                        return copy.deepcopy(prev) if (n.id == k and prev is not None) else n
+                                return U().visit(copy.deepcopy(v))
+                            self.localdefs[k] = ast.IfExp(test=copy.deepcopy(cond), body=unself(va), orelse=unself(vb))
                         out[k] = ast.Name(id=k, ctx=ast.Load())
                 else:
                     out[k] = vb
@@ -1075,6 +1085,10 @@ class FX:
             elif isinstance(val, PyTuple) and len(val.vals) == len(t.elts):
                 for tt, vv in zip(t.elts, val.vals):
                     self._store(tt, vv, env, st, None)
+            elif isinstance(val, (ast.Tuple, ast.List)) and len(val.elts) == len(t.elts) and \
+                    not any(isinstance(x, ast.Starred) for x in list(val.elts) + list(t.elts)):
+                for tt, vv in zip(t.elts, val.elts):
+                    self._store(tt, vv, env, st, None)
             else:
                 for k, tt in enumerate(t.elts):
                     if isinstance(tt, ast.Name):
@@ -1198,6 +1212,21 @@ class FX:
                 key = k.value if isinstance(k, ast.Constant) and isinstance(k.value, str) else self.canon(k, env)
                 d.items.append((key, self._value(v, env), [], []))
             return d
+        if isinstance(e, ast.DictComp) and len(e.generators) == 1 and not e.generators[0].ifs:
+            env2 = dict(env)
+            g = e.generators[0]
+            self._bind_loop(g.target, g.iter, env2)
+            if self._is_stmt_expr(e.value, env2):
+                # {key: [statements] for ...}: the same value a loop filling `cases[key] = [...]` builds
+                self.loops.append((norm(g.target), self.ctext(g.iter, env2)))
+                try:
+                    d = PyDict()
+                    k = e.key
+                    key = k.value if isinstance(k, ast.Constant) and isinstance(k.value, str) else self.canon(k, env2)
+                    d.items.append((key, self._value(e.value, env2), list(self.loops), list(self.pyguards)))
+                finally:
+                    self.loops.pop()
+                return d
         if isinstance(e, ast.ListComp):
             if self._is_stmt_expr(e.elt, env):
                 return PyList([(list(self.loops), list(self.pyguards), n) for n in self._stmts(e, env)])
